@@ -364,6 +364,96 @@ func ScenarioEveryModuleAroundRestart() Script {
 	)
 }
 
+// ScenarioBkavaValidatorEmptied: a user's whole delegation to validator 1 becomes bkava, sits in the earn bkava
+// vault while rewards accrue (incentive stores earn reward indexes for that bkava denom), is withdrawn and burnt
+// again (bkava supply 0), and then EVERY delegation to the validator is undelegated, the operator's
+// self-delegation included: the validator stays in the store with zero delegator shares for the unbonding
+// period.  The incentive begin blocker still visits that bkava denom in every block.
+func ScenarioBkavaValidatorEmptied() Script {
+	const amt = 500_000_000
+	v := 1
+	allOf := func(g *Gen, ctx sdk.Context, u Party, denom string) sdk.Coin {
+		return sdk.NewCoin(denom, g.bal(ctx, u.Addr, denom))
+	}
+	return script(
+		blk(sixS, func(g *Gen) []genFn {
+			u := g.P.Users[0]
+			m := stakingtypes.NewMsgDelegate(u.Addr, g.P.ValAddr(v), c("ukava", amt))
+			return []genFn{fixed(one("staking.delegate", u, m, "val1")), g.bankSend}
+		}),
+		blk(sixS, func(g *Gen) []genFn {
+			u := g.P.Users[0]
+			m := liquidtypes.NewMsgMintDerivative(u.Addr, g.P.ValAddr(v), c("ukava", amt))
+			return []genFn{fixed(one("liquid.mint", u, &m, "val1 all"))}
+		}),
+		blk(sixS, func(g *Gen) []genFn {
+			u := g.P.Users[0]
+			return []genFn{func(ctx sdk.Context) *TxSpec {
+				cn := allOf(g, ctx, u, g.bkavaDenom(v))
+				if !cn.Amount.IsPositive() {
+					return nil
+				}
+				return one("earn.deposit", u, earntypes.NewMsgDeposit(u.Addr.String(), cn, earntypes.STRATEGY_TYPE_SAVINGS), cn.String())
+			}}
+		}),
+		blk(time.Hour, func(g *Gen) []genFn { return []genFn{g.bankSend} }),
+		blk(sixS, func(g *Gen) []genFn {
+			u := g.P.Users[0]
+			return []genFn{func(ctx sdk.Context) *TxSpec {
+				ek := g.N.T.GetEarnKeeper()
+				sh, found := ek.GetVaultAccountShares(ctx, u.Addr)
+				if !found {
+					return nil
+				}
+				cn := sdk.NewCoin(g.bkavaDenom(v), sh.AmountOf(g.bkavaDenom(v)).TruncateInt())
+				if !cn.Amount.IsPositive() {
+					return nil
+				}
+				return one("earn.withdraw", u, earntypes.NewMsgWithdraw(u.Addr.String(), cn, earntypes.STRATEGY_TYPE_SAVINGS), cn.String())
+			}}
+		}),
+		blk(sixS, func(g *Gen) []genFn {
+			u := g.P.Users[0]
+			return []genFn{func(ctx sdk.Context) *TxSpec {
+				cn := allOf(g, ctx, u, g.bkavaDenom(v))
+				if !cn.Amount.IsPositive() {
+					return nil
+				}
+				m := liquidtypes.NewMsgBurnDerivative(u.Addr, g.P.ValAddr(v), cn)
+				return one("liquid.burn", u, &m, cn.String())
+			}}
+		}),
+		blk(sixS, func(g *Gen) []genFn {
+			// every delegation to the validator is undelegated in full (users and the operator itself)
+			var out []genFn
+			for _, p := range append(append([]Party{}, g.P.Users...), g.P.ValOps...) {
+				p := p
+				out = append(out, func(ctx sdk.Context) *TxSpec {
+					sk := g.N.T.GetStakingKeeper()
+					del, found := sk.GetDelegation(ctx, p.Addr, g.P.ValAddr(v))
+					if !found {
+						return nil
+					}
+					val, found := sk.GetValidator(ctx, g.P.ValAddr(v))
+					if !found {
+						return nil
+					}
+					tok := val.TokensFromShares(del.GetShares()).TruncateInt()
+					if !tok.IsPositive() {
+						return nil
+					}
+					m := stakingtypes.NewMsgUndelegate(p.Addr, g.P.ValAddr(v), sdk.NewCoin("ukava", tok))
+					return one("staking.undelegate", p, m, "val1 all "+tok.String())
+				})
+			}
+			return out
+		}),
+		blk(sixS, func(g *Gen) []genFn { return []genFn{g.bankSend} }),
+		blk(sixS, func(g *Gen) []genFn { return []genFn{g.bankSend, g.incentiveClaim} }),
+		blk(time.Hour, func(g *Gen) []genFn { return []genFn{g.bankSend} }),
+	)
+}
+
 // ScenarioLastCdpsLiquidated: several minimum-size CDPs of one collateral type, opened by different users, are
 // the only debt in the cdp module account. Interest accrues over a short gap (per-CDP interest rounds up more
 // than the collateral-type total does: the module holds 30000002 debt coins, the CDPs owe 30000003), then the
